@@ -26,7 +26,7 @@ man = dict(
     setup_cmd="./verif setup",
     hooks=dict(
         guard="verif",
-        enable="go build -overlay build/overlay.json -tags verif[,purego|,force32bit] from /repo: harness packages are virtual packages under internal/verif, hook files (//go:build verif) are grafted into repository packages by the overlay, and cache/lru.go is regenerated from the working tree with \"sync\" replaced by the vsync shim; nothing guarded is committed to /repo",
+        enable="go build -overlay build/overlay.json -tags verif[,purego|,force32bit|,force64bit] [GOARCH=386] from /repo: harness packages are virtual packages under internal/verif, hook files (//go:build verif) are grafted into repository packages by the overlay; for the scheduler harness only (build/overlay-sched.json) cache/lru.go and cache/cache.go are regenerated from the working tree with \"sync\" replaced by the vsync shim and a Step() before every statement; nothing guarded is committed to /repo",
         baseline_off_cmd="cd /repo && GOFLAGS=-mod=mod GOPROXY=off GOSUMDB=off GOTOOLCHAIN=local go test -vet=off -count=1 -timeout 25m ./...",
         source_commits=[],
         add_only=True,
